@@ -375,7 +375,11 @@ def _drive(run, plan, har):
     if first is None:
         run.viols.append(('setup', 'source-did-not-transmit', 'the source node transmitted nothing for the secured bundle'))
         return
-    orig0 = rfc9171.decode_bundle(first)
+    try:
+        orig0 = rfc9171.decode_bundle(first)
+    except rfc9171.Malformed as err:
+        run.viols.append(('wire', 'source-output-malformed', 'the secured bundle the source transmitted is not well-formed: %s' % err))
+        return
     if not sc.sec_blocks(orig0, rfc9171.TYPE_BIB):
         run.viols.append(('setup', 'no-bib', 'the transmitted bundle carries no integrity block although policy demands one'))
         return
